@@ -863,7 +863,7 @@ func inFlowLayout(context *layoutContext, box_ bo.Box, index int, child_ Box, ne
 		// Between in-flow siblings
 		pageBreak = blockLevelPageBreak(lastInFlowChild, child_)
 		pageName_ := blockLevelPageName(lastInFlowChild, child_)
-		if !context.inMarginBox && (pageName_ != "" || forcePageBreak(pageBreak, context)) {
+		if !context.inMarginBox && context.inAtomicInline == 0 && (pageName_ != "" || forcePageBreak(pageBreak, context)) {
 			pageName, _ := child.PageValues()
 			nextPage = tree.PageBreak{Break: pageBreak, Page: pageName}
 			resumeAt = tree.ResumeStack{index: nil}
@@ -1288,7 +1288,9 @@ func avoidPageBreak(pageBreak string, context *layoutContext) bool {
 
 // Test whether we should force breaks.
 func forcePageBreak(pageBreak string, context *layoutContext) bool {
-	if context.inMarginBox {
+	if context.inMarginBox || context.inAtomicInline > 0 {
+		// the content of a page-margin box or of an atomic inline-level box (which stands in a line box)
+		// is not fragmented: a forced break inside it does not apply
 		return false
 	}
 	if context.inColumn {
